@@ -4,6 +4,7 @@
 From Coq Require Import List Arith Bool.
 From Echo Require Import Mw.Proxy Mw.ProxyProofs Mw.ProxyFair.
 Import ListNotations.
+From Echo Require Import PropLemmas.C19.
 
 (* whatever the history left in the balancer, the index Next returns is within the current list
    (no index panic) and Next does not change the list *)
@@ -42,9 +43,7 @@ Print Assumptions C19_remove_keeps_others.
 Theorem C19_names_stay_unique : forall T eqb, (forall a b, eqb a b = true <-> a = b) ->
   forall s t, NoDup (targets T s) ->
   NoDup (targets T (fst (add T eqb s t))) /\ NoDup (targets T (fst (remove T eqb s t))).
-Proof. intros T eqb H s t Hn. split; [apply add_nodup; assumption|].
-  unfold remove. pose proof (remove1_nodup T eqb H (targets T s) t Hn).
-  destruct (remove1 T eqb (targets T s) t); exact H0. Qed.
+Proof. exact C19_names_stay_unique_l. Qed.
 Print Assumptions C19_names_stay_unique.
 
 (* round-robin visits a fixed list of n >= 2 targets cyclically: the k first attempts pick
